@@ -320,6 +320,17 @@ func (m *Machine) visitInstr(fr *frame, instr ssa.Instruction) continuation {
 		fr.env[instr] = fr.get(instr.X)
 
 	case *ssa.Convert:
+		// &slice[i] -> unsafe.Pointer keeps the extent of the backing slice (needed for byte views)
+		if b, ok := instr.Type().Underlying().(*types.Basic); ok && b.Kind() == types.UnsafePointer {
+			if ia, ok := instr.X.(*ssa.IndexAddr); ok {
+				if base, ok := fr.get(ia.X).([]Value); ok {
+					if it := fr.get(ia.Index).(*Term); it.IsConst() && int(it.C) < len(base) {
+						fr.env[instr] = UPtr{S: base[it.C:], T: deref(ia.Type())}
+						break
+					}
+				}
+			}
+		}
 		fr.env[instr] = m.conv(instr.Type(), instr.X.Type(), fr.get(instr.X))
 
 	case *ssa.SliceToArrayPointer:
@@ -702,7 +713,9 @@ func (m *Machine) callSSA(caller *frame, callpos token.Pos, fn *ssa.Function, ar
 	}
 	if fn.Parent() == nil {
 		if ext := findIntrinsic(fn); ext != nil {
-			return ext(m, fr, args)
+			if r := ext(m, fr, args); r != Value(fallThrough) {
+				return r
+			}
 		}
 	}
 	if fn.Blocks == nil {
@@ -923,3 +936,6 @@ func muxRead(n int, at func(int) *Term, idx *Term) *Term {
 	}
 	return build(0, bitsN-1)
 }
+
+// fallThrough is returned by an intrinsic that declines the call (the SSA body is executed instead).
+var fallThrough = &struct{ x int }{}
